@@ -4,7 +4,7 @@ from fractions import Fraction
 
 from .loader import norm, AnalysisError
 from . import legs as lg
-from .legs import LegError, TVal, Leg, Occ, Net, FactorRule
+from .legs import LegError, LegUnknown, TVal, Leg, Occ, Net, FactorRule
 
 
 class QV:
@@ -129,8 +129,8 @@ class LegInterp:
             if isinstance(s.op, ast.Mult):
                 self.assign(s.target, self.mult(cur, v, s), s)
                 return
-            raise LegError(f'{self.fi.qual}: augmented assignment `{norm(s)[:60]}` not in the leg domain')
-        raise LegError(f'{self.fi.qual}: statement {s.__class__.__name__} (line {s.lineno}) not in the leg domain')
+            raise LegUnknown(f'{self.fi.qual}: augmented assignment `{norm(s)[:60]}` not in the leg domain')
+        raise LegUnknown(f'{self.fi.qual}: statement {s.__class__.__name__} (line {s.lineno}) not in the leg domain')
 
     def const_test(self, test):
         if isinstance(test, ast.Compare) and len(test.ops) == 1 and isinstance(test.left, ast.Name) and \
@@ -171,7 +171,7 @@ class LegInterp:
         elif isinstance(t, ast.Subscript) or isinstance(t, ast.Attribute):
             self.env['@' + norm(t)] = v
         else:
-            raise LegError(f'{self.fi.qual}: assignment target `{norm(t)}` not in the leg domain')
+            raise LegUnknown(f'{self.fi.qual}: assignment target `{norm(t)}` not in the leg domain')
 
     # ------------------------------------------------------------------
     def ev(self, e):
@@ -265,7 +265,7 @@ class LegInterp:
                     # restriction of one axis by an index set: same legs (fewer values on that leg)
                     self.shared['events'].append(('restrict', e, self.fi, base, sel[0]))
                     return base
-                raise LegError(f'tensor subscript `{norm(e)[:50]}` not in the leg domain')
+                raise LegUnknown(f'tensor subscript `{norm(e)[:50]}` not in the leg domain')
             return Opaque(norm(e))
         if isinstance(e, ast.BinOp):
             if isinstance(e.op, ast.Mult):
@@ -288,7 +288,7 @@ class LegInterp:
                 if r is not None:
                     return r
                 if isinstance(a, TVal) or isinstance(b, TVal):
-                    raise LegError(f'`{norm(e)[:50]}`: matrix product with an operand outside the leg domain')
+                    raise LegUnknown(f'`{norm(e)[:50]}`: matrix product with an operand outside the leg domain')
             return Scalar(norm(e))
         if isinstance(e, ast.Call):
             return self.call(e)
@@ -302,9 +302,27 @@ class LegInterp:
             a, b = self.ev(e.body), self.ev(e.orelse)
             if isinstance(a, (Scalar, Opaque)) and isinstance(b, (Scalar, Opaque)):
                 return Scalar(norm(e))          # a choice between two numbers is a number
+            if isinstance(a, TVal) and isinstance(b, TVal):
+                # a tensor chosen by a run-time test: both outcomes must denote the same network, otherwise the result is
+                # the documented one for some inputs only (e.g. a conjugation that depends on the dtype of another operand)
+                ca, cb = lg.canon(a), lg.canon(b)
+                if ca == cb:
+                    return a
+                # conj(X) if X is complex else X: conjugating a real array changes nothing - same tensor on both paths
+                t = e.test
+                if isinstance(t, ast.Call) and norm(t.func) in ('np.iscomplexobj', 'np.iscomplex') and len(t.args) == 1:
+                    cj, pl = (e.body, e.orelse)
+                    if norm(cj) in (f'{norm(pl)}.conj()', f'np.conj({norm(pl)})', f'{norm(pl)}.conjugate()') and norm(t.args[0]) == norm(pl):
+                        return a
+                if isinstance(t, ast.Call) and norm(t.func) in ('np.isrealobj',) and len(t.args) == 1:
+                    pl, cj = (e.body, e.orelse)
+                    if norm(cj) in (f'{norm(pl)}.conj()', f'np.conj({norm(pl)})', f'{norm(pl)}.conjugate()') and norm(t.args[0]) == norm(pl):
+                        return b
+                raise LegError(f'`{norm(e)[:80]}`: the two outcomes of the run-time test `{norm(e.test)[:40]}` denote different '
+                               f'tensors (conjugated legs {ca.get("conj")} vs {cb.get("conj")})')
         if isinstance(e, ast.BoolOp):
             return Scalar('bool')
-        raise LegError(f'{self.fi.qual}: expression `{norm(e)[:60]}` not in the leg domain')
+        raise LegUnknown(f'{self.fi.qual}: expression `{norm(e)[:60]}` not in the leg domain')
 
     def dim_product(self, v, node):
         if isinstance(v, DimVal):
@@ -372,7 +390,7 @@ class LegInterp:
                 raise LegError(f'`{norm(node)[:50]}`: singular values multiply axis {axis} ({leg}) which is not their bond')
             return lg.scale_axis(a, axis, b.sid, b.exponent)
         if isinstance(a, TVal) and isinstance(b, TVal):
-            raise LegError(f'elementwise product of two tensors `{norm(node)[:50]}` not in the leg domain')
+            raise LegUnknown(f'elementwise product of two tensors `{norm(node)[:50]}` not in the leg domain')
         if isinstance(a, TVal) or isinstance(b, TVal):
             t, s = (a, b) if isinstance(a, TVal) else (b, a)
             n = Net()
@@ -387,6 +405,10 @@ class LegInterp:
     def call(self, e):
         f = norm(e.func)
         kw = {k.arg: k.value for k in e.keywords if k.arg}
+        if f in ('min', 'max', 'abs', 'float', 'int', 'complex', 'round', 'np.real', 'np.imag', 'np.abs', 'np.sqrt') and e.args:
+            vals = [self.ev(a) for a in e.args]
+            if all(isinstance(v, (Scalar, Opaque)) for v in vals):
+                return Scalar(norm(e))          # numbers in, a number out
         if f == 'np.diag' and len(e.args) == 1:
             v = self.ev(e.args[0])
             if isinstance(v, SigmaVal):
@@ -399,7 +421,7 @@ class LegInterp:
             r = self.diag_product(a, b, e)
             if r is not None:
                 return r
-            raise LegError(f'{self.fi.qual}: `{norm(e)[:50]}` with operands outside the leg domain')
+            raise LegUnknown(f'{self.fi.qual}: `{norm(e)[:50]}` with operands outside the leg domain')
         if f in ('np.tensordot',):
             a, b = self.ev(e.args[0]), self.ev(e.args[1])
             axn = e.args[2] if len(e.args) > 2 else kw.get('axes')
@@ -411,7 +433,7 @@ class LegInterp:
             # subscripts-string form: 'iab,icb->ac' (explicit output only; no ellipsis, no repeated label in one operand)
             spec = e.args[0].value.replace(' ', '')
             if '->' not in spec or '.' in spec:
-                raise LegError(f'einsum `{spec}`: implicit output / ellipsis is not in the leg domain')
+                raise LegUnknown(f'einsum `{spec}`: implicit output / ellipsis is not in the leg domain')
             ins, out = spec.split('->')
             ins = ins.split(',')
             vals = [self.ev(a) for a in e.args[1:]]
@@ -530,7 +552,7 @@ class LegInterp:
                 return self.inline(r[1], e)
         if f.startswith('contraction_') or f in ('np.identity', 'compute_right_operator_blocks'):
             return Opaque(norm(e))
-        raise LegError(f'{self.fi.qual}: call `{norm(e)[:70]}` not in the leg domain')
+        raise LegUnknown(f'{self.fi.qual}: call `{norm(e)[:70]}` not in the leg domain')
 
     def inline(self, callee, e):
         if self.shared['depth'] > 4:
